@@ -320,6 +320,10 @@ def _check_axis_order(ctx: Ctx) -> None:
                 return 'set'
             if f == 'map' and len(e.args) == 2:
                 return order_of(e.args[1], depth + 1)
+            if f == 'zip' and len(e.args) >= 1:
+                # pairs (key, iterable) zipped from sequences that all follow the same order
+                os_ = {order_of(a, depth + 1) for a in e.args}
+                return os_.pop() if len(os_) == 1 else None
             if f in ('OrderedDict', 'dict', 'collections.OrderedDict') and len(e.args) == 1 and not e.keywords:
                 return order_of(e.args[0], depth + 1)       # a mapping filled from an ordered sequence of pairs keeps that order
             if isinstance(e.func, ast.Attribute) and e.func.attr in ('keys', 'values', 'items') and not e.args:
